@@ -183,6 +183,25 @@ func solveOne(o *Obligation, dir string, timeoutS int, agree bool, seed int) {
 			o.Output = fmt.Sprintf("engine panic while printing: %v\n%s", e, debug.Stack())
 		}
 	}()
+	if o.Alts != nil {
+		// cover.any: unsat only if every alternative is unsat
+		total := int64(0)
+		for i, pc := range o.Alts {
+			if i >= 64 {
+				o.Status = "unknown"
+				break
+			}
+			sub := &Obligation{Func: o.Func, Name: o.Name, Kind: "cover", Cover: true, PC: pc, Goal: o.Goal, ctx: o.ctx, Hash: fmt.Sprintf("%s/alt%d", o.Hash, i)}
+			solveOne(sub, dir, timeoutS, false, seed)
+			total += sub.TimeMS
+			o.Status, o.Solver, o.Output = sub.Status, sub.Solver, sub.Output
+			if sub.Status != "unsat" {
+				break
+			}
+		}
+		o.TimeMS = total
+		return
+	}
 	// printing touches the (non thread-safe) term context of the function
 	mu := ctxLock(o.ctx)
 	mu.Lock()
